@@ -370,7 +370,16 @@ class Parser:
         Consume the current token as an rvalue, generating the code to evaluate
         it and to move the result into dest.
         """
-        code_gen = code_gen or self._code_gen
+        if code_gen is not None and code_gen is not self._code_gen:
+            # Expressions and calls emit through the parser's own generator:
+            # make it the requested one while this value is compiled.
+            saved = self._code_gen
+            self._code_gen = code_gen
+            try:
+                return self._rvalue(dest)
+            finally:
+                self._code_gen = saved
+        code_gen = self._code_gen
         if self._current_token.is_mark('{'):
             return self.next_token() and self._rvalue_curly(dest, code_gen)
         if self._current_token.is_mark('['):
